@@ -236,6 +236,9 @@ class Shape:
                 out.append(('func', lid, body))
             elif k == 'comment':
                 self.add('comment', f'{pad}# comment')
+            elif k == 'include':
+                n_inc = len(self.pm.kind_regex.get('include', []))
+                out.append(('include', self.add('include', f"{pad}include {'<lib.bare>' if item[1] else chr(39) + 'lib.bare' + chr(39)}", (), regex_ix=min(item[1], n_inc - 1))))
             else:
                 raise ValueError(k)
         return out
